@@ -39,6 +39,14 @@ pub struct Profile {
     pub budget_scale: f64,
     pub big_radius: bool,
     pub seam_bias: f64,
+    /// probability of allowing non-convex bounded regions although `bounds` asks for convex ones
+    pub p_nonconvex: f64,
+    /// probability of 1-2 extra (unused) start states, each valid or not
+    pub p_extra_starts: f64,
+    /// with histories: probability that problem 2 comes with its own, stricter world
+    pub p_world2: f64,
+    /// PRM: probability of the query history setup, construct, solve, set_problem(P2), solve
+    pub p_prm_requery: f64,
 }
 impl Default for Profile {
     fn default() -> Self {
@@ -56,6 +64,10 @@ impl Default for Profile {
             budget_scale: 1.0,
             big_radius: false,
             seam_bias: 0.0,
+            p_nonconvex: 0.0,
+            p_extra_starts: 0.15,
+            p_world2: 0.3,
+            p_prm_requery: 0.0,
         }
     }
 }
@@ -187,7 +199,12 @@ pub fn default_budget(ch: &mut Ch, planner: PlannerTag, scale: f64) -> u64 {
 pub fn gen_plan_case(ch: &mut Ch, prof: &Profile) -> PlanCase {
     let kind = ch.pick(&prof.kinds);
     let planner = ch.pick(&prof.planners);
-    let space = gen_space(ch, kind, prof.bounds, true);
+    let bounds_mode = if prof.bounds == BoundsMode::BoundedConvex && ch.prob(prof.p_nonconvex) {
+        BoundsMode::Bounded
+    } else {
+        prof.bounds
+    };
+    let space = gen_space(ch, kind, bounds_mode, true);
     let extent = approx_extent(&space).max(1e-9);
     let lvs = lvs_of(&space).unwrap_or(extent * 0.05);
     let step = match ch.weighted(&[7.0, 1.5, 1.5]) {
@@ -300,7 +317,12 @@ pub fn gen_plan_case(ch: &mut Ch, prof: &Profile) -> PlanCase {
         ops.push(Op::Construct { budget });
     }
     ops.push(Op::Solve { budget });
-    let mut problems = vec![Problem { start, goal }];
+    let mut problems = vec![Problem {
+        start,
+        goal,
+        extra_starts: vec![],
+        no_start: false,
+    }];
 
     if prof.histories {
         let s2 = gen_state_in(ch, &space);
@@ -309,10 +331,63 @@ pub fn gen_plan_case(ch: &mut Ch, prof: &Profile) -> PlanCase {
         problems.push(Problem {
             start: s2,
             goal: g2,
+            extra_starts: vec![],
+            no_start: false,
         });
         ops = gen_history(ch, planner, prof.budget_scale);
     }
-    let seed = Some(ch.seed());
+    // seeds: mostly arbitrary, sometimes the special values real callers use
+    let seed = Some(match ch.weighted(&[8.0, 1.0, 0.5, 0.5]) {
+        0 => ch.seed(),
+        1 => 0,
+        2 => 1,
+        _ => u64::MAX,
+    });
+    if ch.prob(prof.p_extra_starts) {
+        let n = 1 + ch.below(2);
+        for _ in 0..n {
+            let e = gen_state_in(ch, &space);
+            problems[0].extra_starts.push(e);
+        }
+    }
+    let mut world2 = None;
+    if prof.histories && ch.prob(prof.p_world2) {
+        // a stricter world for problem 2: the base world plus one more obstacle (which may or
+        // may not block something that matters)
+        let mut w = world.clone();
+        let p2 = &problems[1];
+        let o = if ch.prob(0.5) {
+            gen_obstacle(ch, &space, &p2.start, &p2.goal.targets[0], lvs, step, extent, false)
+        } else {
+            let c = ref_interpolate(&space, &p2.start, &p2.goal.targets[0], 0.5);
+            Obst::Ball {
+                c,
+                r: ch.range(0.05, 0.3) * extent,
+            }
+        };
+        if !o.hits(&space, &p2.start) {
+            w.obst.push(o);
+            world2 = Some(w);
+        }
+    }
+    if planner == PlannerTag::PRM && !prof.histories && ch.prob(prof.p_prm_requery) {
+        let s2 = gen_state_in(ch, &space);
+        let g2 = gen_goal(ch, &space, extent, prof.rng_goal);
+        world.obst.retain(|o| !o.hits(&space, &s2));
+        problems.push(Problem {
+            start: s2,
+            goal: g2,
+            extra_starts: vec![],
+            no_start: false,
+        });
+        ops = vec![
+            Op::Setup(0),
+            Op::Construct { budget },
+            Op::Solve { budget },
+            Op::SetProblem(1),
+            Op::Solve { budget },
+        ];
+    }
     PlanCase {
         space,
         world,
@@ -328,6 +403,7 @@ pub fn gen_plan_case(ch: &mut Ch, prof: &Profile) -> PlanCase {
         goal_fail_at: None,
         empty_starts: false,
         query_cap: 400_000,
+        world2,
     }
 }
 
@@ -370,6 +446,8 @@ pub fn gen_history(ch: &mut Ch, planner: PlannerTag, scale: f64) -> Vec<Op> {
 #[derive(Clone, Debug, Default)]
 pub struct ApiModel {
     pub problem: Option<usize>,
+    /// index of the world whose checker is installed (see PlanCase::world_by_index)
+    pub world: usize,
     pub checker: bool,
     pub roadmap_built: bool,
     pub roadmap_len: usize,
@@ -390,6 +468,7 @@ pub fn walk_model(case: &PlanCase, trace: &Trace, mut f: impl FnMut(usize, &ApiM
         match &st.op {
             Op::Setup(p) => {
                 m.problem = Some(*p % np);
+                m.world = case.world_index_for(*p % np);
                 m.checker = true;
                 m.roadmap_built = false;
                 m.roadmap_len = 0;
@@ -410,6 +489,20 @@ pub fn walk_model(case: &PlanCase, trace: &Trace, mut f: impl FnMut(usize, &ApiM
             m.roadmap_len = r.len();
         }
     }
+}
+
+/// Index of the world whose checker is in effect while each step runs (for a setup step: the one
+/// it installs).
+pub fn step_worlds(case: &PlanCase, trace: &Trace) -> Vec<usize> {
+    let mut out = vec![0; trace.steps.len()];
+    walk_model(case, trace, |i, m, st| {
+        out[i] = match st.op {
+            Op::Setup(p) => case.world_index_for(p % case.problems.len()),
+            _ => m.world,
+        };
+    });
+    // steps after a panic keep the last value
+    out
 }
 
 pub struct KSpace<K: Kind> {
